@@ -17,7 +17,7 @@ fn campaign(target: &str) -> (u64, &'static str, u32) {
 	match target {
 		"parse_diff" => (3_000_000, "none", 256),
 		"print_rt" => (1_500_000, "none", 512),
-		"value_laws" => (400_000, "none", 512),
+		"value_laws" => (1_500_000, "none", 512),
 		_ => (60_000, "address", 384),
 	}
 }
